@@ -67,7 +67,20 @@ def _explore(out, tier, seed, facts, replay):
         zl = "[" + "; ".join("(%d)" % t for t in chunk) + "]%Z"
         for name, fn in TIME_AXES:
             exprs.append("map (fun t => f_of_Z (%s t)) %s" % (fn, zl))
-            v = impl_axes[name].compute_from_times(np.array(chunk))
+            try:
+                v = impl_axes[name].compute_from_times(np.array(chunk))
+            except Exception as e:
+                # find one time that fails on its own: that is the replay
+                culprit = None
+                for t_ in chunk:
+                    try:
+                        impl_axes[name].compute_from_times(np.array([t_]))
+                    except Exception:
+                        culprit = t_
+                        break
+                out.violation("axis-exception:%s" % name, "verif.axis.%s.compute_from_times raises %s: %s for the unix time %r"
+                              % (name.title(), type(e).__name__, e, culprit), {"axis": name, "time": culprit})
+                v = [float("nan")] * len(chunk)
             if name == "timeofday":
                 v = [x * 3600 for x in v]
             expected.append([float(x) for x in v])
